@@ -1,3 +1,169 @@
+/-
+Helper lemmas for Props/C18 (checksummed chunk file).  Core Lean only.
+-/
 import SigModel.Model.Checksum
 namespace SigModel.Lemmas.C18
+open SigModel.Wal (Bytes le32 rd32)
+open SigModel.Checksum
+
+/-! ### le32 / rd32 -/
+
+@[simp] theorem le32_length (n : Nat) : (le32 n).length = 4 := rfl
+
+theorem rd32_le32 (n : Nat) (r : Bytes) (h : n < 4294967296) :
+    rd32 (le32 n ++ r) = some (n, r) := by
+  simp [le32, rd32]; omega
+
+theorem rd32_short : ∀ (l : Bytes), l.length < 4 → rd32 l = none
+  | [], _ => rfl
+  | [_], _ => rfl
+  | [_, _], _ => rfl
+  | [_, _, _], _ => rfl
+  | _ :: _ :: _ :: _ :: _, h => by simp at h; omega
+
+theorem magic_lt : magic < 4294967296 := by decide
+
+/-! ### readU32At -/
+
+theorem readU32At_eq (f P R : Bytes) (v off : Nat) (hf : f = P ++ (le32 v ++ R))
+    (hP : P.length = off) (hv : v < 4294967296) : readU32At f off = some v := by
+  subst hf hP
+  simp [readU32At, rd32_le32 _ _ hv]
+
+theorem readU32At_short (f : Bytes) (off : Nat) (h : f.length < off + 4) :
+    readU32At f off = none := by
+  unfold readU32At
+  rw [rd32_short]
+  simp; omega
+
+theorem set_append_right (P Q : Bytes) (i b : Nat) (h : P.length ≤ i) :
+    (P ++ Q).set i b = P ++ Q.set (i - P.length) b := by
+  rw [List.set_append, if_neg (by omega)]
+
+/-! ### file layout -/
+
+def chunkBytes (crc : Bytes → Nat) (c : Bytes) : Bytes :=
+  if c.isEmpty then [] else le32 magic ++ (le32 (crc c) ++ (le32 c.length ++ c))
+
+/-- width of a chunk in the file -/
+def width (c : Bytes) : Nat := if c.isEmpty then 0 else dataOffset + c.length
+
+theorem chunkBytes_of_ne (crc : Bytes → Nat) (c : Bytes) (h : c ≠ []) :
+    chunkBytes crc c = le32 magic ++ (le32 (crc c) ++ (le32 c.length ++ c)) := by
+  unfold chunkBytes
+  rw [if_neg]; simpa using h
+
+theorem width_of_ne (c : Bytes) (h : c ≠ []) : width c = 12 + c.length := by
+  unfold width dataOffset
+  rw [if_neg]; simpa using h
+
+theorem chunkBytes_length (crc : Bytes → Nat) (c : Bytes) :
+    (chunkBytes crc c).length = width c := by
+  unfold chunkBytes width dataOffset
+  split <;> simp <;> omega
+
+theorem appendChunk_eq (crc : Bytes → Nat) (f c : Bytes) :
+    appendChunk crc f c = f ++ chunkBytes crc c := by
+  unfold appendChunk chunkBytes
+  split <;> simp
+
+theorem foldl_appendChunk (crc : Bytes → Nat) (cs : List Bytes) (init : Bytes) :
+    cs.foldl (appendChunk crc) init = init ++ (cs.map (chunkBytes crc)).flatten := by
+  induction cs generalizing init with
+  | nil => simp
+  | cons c cs ih => simp [ih, appendChunk_eq]
+
+theorem fileOf_eq (crc : Bytes → Nat) (cs : List Bytes) :
+    fileOf crc cs = (cs.map (chunkBytes crc)).flatten := by
+  simp [fileOf, foldl_appendChunk]
+
+theorem fileOf_snoc (crc : Bytes → Nat) (cs : List Bytes) (c : Bytes) :
+    fileOf crc (cs ++ [c]) = appendChunk crc (fileOf crc cs) c := by
+  simp [fileOf]
+
+theorem fileOf_nil (crc : Bytes → Nat) : fileOf crc [] = [] := rfl
+
+theorem fileOf_cons (crc : Bytes → Nat) (c : Bytes) (cs : List Bytes) :
+    fileOf crc (c :: cs) = chunkBytes crc c ++ fileOf crc cs := by
+  simp [fileOf_eq]
+
+theorem fileOf_append (crc : Bytes → Nat) (A B : List Bytes) :
+    fileOf crc (A ++ B) = fileOf crc A ++ fileOf crc B := by
+  simp [fileOf_eq]
+
+theorem fileOf_length (crc : Bytes → Nat) (L : List Bytes) :
+    (fileOf crc L).length = (L.map width).sum := by
+  induction L with
+  | nil => rfl
+  | cons c cs ih => simp [fileOf_cons, chunkBytes_length, ih]
+
+theorem chunkStart_eq (chunks : List Bytes) (k : Nat) :
+    chunkStart chunks k = ((chunks.take k).map width).sum := rfl
+
+theorem fileOf_take_length (crc : Bytes → Nat) (chunks : List Bytes) (k : Nat) :
+    (fileOf crc (chunks.take k)).length = chunkStart chunks k := by
+  rw [fileOf_length, chunkStart_eq]
+
+theorem chunkStart_succ (chunks : List Bytes) (k : Nat) (hk : k < chunks.length) :
+    chunkStart chunks (k + 1) = chunkStart chunks k + width chunks[k] := by
+  rw [chunkStart_eq, chunkStart_eq, List.take_succ_eq_append_getElem hk, List.map_append,
+    List.sum_append]
+  rfl
+
+theorem chunkStart_mono (chunks : List Bytes) (j : Nat) :
+    ∀ d, j + d ≤ chunks.length → chunkStart chunks j ≤ chunkStart chunks (j + d)
+  | 0, _ => Nat.le_refl _
+  | d + 1, h => by
+    have h1 := chunkStart_mono chunks j d (by omega)
+    have h2 := chunkStart_succ chunks (j + d) (by omega)
+    rw [← Nat.add_assoc, h2]; omega
+
+/-- the file split around chunk `k` -/
+theorem fileOf_split (crc : Bytes → Nat) (chunks : List Bytes) (k : Nat) (hk : k < chunks.length) :
+    fileOf crc chunks
+      = fileOf crc (chunks.take k) ++ (chunkBytes crc chunks[k] ++ fileOf crc (chunks.drop (k + 1))) := by
+  have h : chunks = chunks.take k ++ chunks[k] :: chunks.drop (k + 1) := by
+    rw [← List.drop_eq_getElem_cons hk, List.take_append_drop]
+  conv => lhs; rw [h]
+  rw [fileOf_append, fileOf_cons]
+
+/-! ### reading a chunk whose 12 header bytes are present -/
+
+theorem readChunkAt_hdr (crc : Bytes → Nat) (f P R : Bytes) (sum len n off : Nat)
+    (hf : f = P ++ (le32 magic ++ (le32 sum ++ (le32 len ++ R)))) (hP : P.length = off)
+    (hs : sum < 4294967296) (hl : len < 4294967296) :
+    readU32At f off = some magic ∧ readU32At f (off + 4) = some sum ∧
+    readU32At f (off + 8) = some len ∧ f.drop (off + dataOffset) = R ∧
+    readChunkAt crc f n off =
+      if len > n then Rd.fail
+      else if crc (R.take len) ≠ sum then Rd.fail
+      else if (R.take len).length < len then Rd.okEof (R.take len) else Rd.ok (R.take len) := by
+  have h0 : readU32At f off = some magic := readU32At_eq f P _ magic off hf hP magic_lt
+  have h4 : readU32At f (off + 4) = some sum :=
+    readU32At_eq f (P ++ le32 magic) (le32 len ++ R) sum (off + 4) (by simp [hf]) (by simp [hP]) hs
+  have h8 : readU32At f (off + 8) = some len :=
+    readU32At_eq f (P ++ (le32 magic ++ le32 sum)) R len (off + 8) (by simp [hf]) (by simp [hP]) hl
+  have hd : f.drop (off + dataOffset) = R := by
+    have : off + dataOffset = (P ++ (le32 magic ++ (le32 sum ++ le32 len))).length := by
+      simp [hP, dataOffset]
+    rw [this, hf]
+    have : P ++ (le32 magic ++ (le32 sum ++ (le32 len ++ R)))
+        = (P ++ (le32 magic ++ (le32 sum ++ le32 len))) ++ R := by simp
+    rw [this, List.drop_left]
+  refine ⟨h0, h4, h8, hd, ?_⟩
+  unfold readChunkAt
+  simp only [h0, h4, h8, hd]
+  simp
+
+/-- an intact chunk at position `P.length` is read back exactly, whatever follows it -/
+theorem readChunkAt_chunk (crc : Bytes → Nat) (P post c : Bytes) (n : Nat) (hc : c ≠ [])
+    (hl : c.length < 4294967296) (hs : crc c < 4294967296) (hn : c.length ≤ n) :
+    readChunkAt crc (P ++ (chunkBytes crc c ++ post)) n P.length = Rd.ok c := by
+  have h := (readChunkAt_hdr crc (P ++ (chunkBytes crc c ++ post)) P (c ++ post) (crc c) c.length n
+    P.length (by rw [chunkBytes_of_ne crc c hc]; simp) rfl hs hl).2.2.2.2
+  rw [h]
+  have ht : (c ++ post).take c.length = c := by simp
+  rw [ht]
+  simp; omega
+
 end SigModel.Lemmas.C18
